@@ -124,7 +124,12 @@ func (i Interval) Length() float64 {
 	if l > 0 {
 		return l
 	}
-	return -1
+	// Only the empty interval has negative length. A non-empty inverted
+	// interval shorter than one ulp of 2*Pi rounds to zero here.
+	if i.IsEmpty() {
+		return -1
+	}
+	return 0
 }
 
 // Assumes p ∈ (-π,π].
